@@ -158,6 +158,17 @@ pub fn plain_tree_specs(scale: Scale, tier: Tier, bits: u32, seed: u64) -> Vec<S
         out.push(SeqSpec { n: b / 3, alpha: Alpha::Dense(200), dist: Dist::Uniform, layout: Layout::Iid, seed: rng.u64() });
         out.push(SeqSpec { n: b / 4, alpha: Alpha::Holes { k: 50, max: type_max(bits) }, dist: Dist::Geometric(1.5), layout: Layout::FreqAfterRare, seed: rng.u64() });
     }
+    // (3b) first occurrences of whole symbol groups on / next to the last position of a superblock
+    if scale != Scale::Tiny {
+        for (j, lead) in [2046usize, 2047, 2048, 4095, 4096, 255, 511].into_iter().enumerate() {
+            for (a, top) in [(Alpha::Dense(16), 1usize), (Alpha::Dense(5), 1), (Alpha::Dense(64), 3)] {
+                if scale == Scale::Mid && (j + top) % 2 == 0 {
+                    continue;
+                }
+                out.push(SeqSpec { n: lead * 2 + 9000, alpha: a, dist: Dist::Dominant, layout: Layout::RareBlockAfter { lead, top }, seed: rng.u64() });
+            }
+        }
+    }
     // (4) seeded random specs
     for _ in 0..lim.n_random {
         let n = match rng.below(4) {
@@ -408,6 +419,24 @@ pub fn bit_specs(scale: Scale, tier: Tier, seed: u64) -> Vec<BitSpec> {
     for (j, kd) in kinds.iter().enumerate() {
         out.push(BitSpec { n: n_mid + j, kind: kd.clone(), seed: rng.u64() });
     }
+    // counts of ones / zeros that reach a hint period exactly on, one before, one after a block or
+    // superblock boundary, the next block starting with either bit
+    if scale != Scale::Tiny {
+        let mut j = 0usize;
+        for (period, unit, units) in [(8192usize, 4096usize, 5usize), (8192, 4096, 3), (1024, 512, 5), (1024, 512, 3), (8192, 512, 33), (1024, 64, 40)] {
+            for target in [false, true] {
+                for delta in [-1i32, 0, 1] {
+                    for next in [false, true] {
+                        j += 1;
+                        if scale == Scale::Mid && j % 3 != 0 {
+                            continue;
+                        }
+                        out.push(BitSpec { n: unit * units + unit + 77, kind: BitKind::CountAligned { period, unit, units, target, delta, next }, seed: rng.u64() });
+                    }
+                }
+            }
+        }
+    }
     if lim.big_n > 0 {
         let b = lim.big_n;
         // ones / zeros crossing several hint periods (1024 for RSNarrow, 8192 for RSWide)
@@ -456,6 +485,47 @@ pub fn quad_specs(scale: Scale, tier: Tier, seed: u64) -> Vec<QuadSpec> {
     let n_mid = lim.max_n.min(6000);
     for (j, kd) in kinds.iter().enumerate() {
         out.push(QuadSpec { n: n_mid + j, kind: kd.clone(), seed: rng.u64() });
+    }
+    if scale != Scale::Tiny {
+        let mut j = 0usize;
+        for (unit, units) in [(2048usize, 9usize), (4096, 5), (2048, 17), (256, 70)] {
+            for sym in [0u8, 3] {
+                for delta in [-1i32, 0, 1] {
+                    for next in [false, true] {
+                        j += 1;
+                        if scale == Scale::Mid && j % 3 != 0 {
+                            continue;
+                        }
+                        out.push(QuadSpec { n: unit * units + unit + 99, kind: QuadKind::CountAligned { unit, units, sym, delta, next }, seed: rng.u64() });
+                    }
+                }
+            }
+        }
+    }
+    if scale != Scale::Tiny {
+        // sampled occurrences (the 1st, 8193rd, ... of a symbol) on / next to the last position of a
+        // superblock or block
+        let mut j = 0usize;
+        for pos in [255usize, 256, 511, 512, 2046, 2047, 2048, 4094, 4095, 4096, 4097, 6143, 8191] {
+            for sym in [0u8, 2, 3] {
+                j += 1;
+                if scale == Scale::Mid && j % 2 == 0 {
+                    continue;
+                }
+                out.push(QuadSpec { n: pos + 3000, kind: QuadKind::FirstOccurrenceAt { sym, pos }, seed: rng.u64() });
+            }
+        }
+        for (unit, units) in [(2048usize, 9usize), (4096, 5), (2048, 13)] {
+            for sym in [1u8, 3] {
+                for back in [0usize, 1, 2] {
+                    j += 1;
+                    if scale == Scale::Mid && j % 2 == 0 {
+                        continue;
+                    }
+                    out.push(QuadSpec { n: unit * units + 5000, kind: QuadKind::SampleNearBoundary { unit, units, sym, back }, seed: rng.u64() });
+                }
+            }
+        }
     }
     if lim.big_n > 0 {
         let b = lim.big_n;
